@@ -79,7 +79,10 @@ def main() -> None:
             for l in (lab if isinstance(lab, (list, tuple)) else [lab]):
                 dist[l] = dist.get(l, 0) + 1
         term = mod.coq_case(d, obs)
-        if term is not None:
+        if isinstance(term, list):      # several Coq cases from one implementation run
+            for t in term:
+                per_kind.setdefault(d.get("_kind", "main"), []).append((d, obs, t))
+        elif term is not None:
             per_kind.setdefault(d.get("_kind", "main"), []).append((d, obs, term))
         if len(samples) < 3:
             samples.append({"input": d, "observed": obs})
